@@ -363,3 +363,151 @@ def dead_reentry(prog, res, floor=0, units=None):
             else:
                 stat.discharged += 1
     return stat
+
+
+# ------------------------------------------------------------------ C16.g
+def emfile_retry(prog, res, floor=2):
+    """descriptor exhaustion is answered by a collection and one retry: a loop whose condition tests
+    `errno == EMFILE` (sexp_out_of_file_descriptors) is the collect-and-retry idiom of the file-opening
+    primitives.  Constant propagation over the loop's counter (a local with a constant initialiser that only the
+    loop condition modifies): with the open failing and errno == EMFILE, the *first* evaluation of the condition is
+    true (the retry is taken), and under the counter value it leaves behind, the guard of the `sexp_gc` call inside
+    the loop is true (the retry collects first).  Without the retry, dropped unclosed ports are never finalized when
+    descriptors run out - the program fails to open a file although nothing reachable holds one."""
+    EMFILE = 24
+    stat = res.stat("C16.g", "collect-and-retry loops on descriptor exhaustion: the retry is taken on the first EMFILE and "
+                    "collects before it opens again (constant propagation over the retry counter)", floor=floor)
+
+    def is_emfile_leaf(fn, n):
+        n = fn.strip(n)
+        nd = fn.nodes[n]
+        if nd["k"] == "bin" and nd["o"] == "==" and fn.const_val(nd["c"][1]) == EMFILE:
+            return "__errno_location" in fn.txt(nd["c"][0])
+        return False
+
+    def ev(fn, n, env, assume):
+        """value of expression n under env (var id -> int), side effects applied to env; None if unknown.
+        `assume`: unknown leaves of && / || / ! are taken as true (the failing-open scenario)"""
+        n = fn.strip(n)
+        nd = fn.nodes[n]
+        k, o = nd["k"], nd.get("o")
+        if "v" in nd and k != "ref":
+            return nd["v"]
+        if k == "ref":
+            if "d" in nd:
+                return env.get(nd["d"])
+            return nd.get("v")
+        if k == "un" and o in ("post++", "post--", "pre++", "pre--"):
+            c = fn.strip(nd["c"][0])
+            d = fn.nodes[c].get("d") if fn.nodes[c]["k"] == "ref" else None
+            if d is None or env.get(d) is None:
+                return None
+            old = env[d]
+            env[d] = old + (1 if "++" in o else -1)
+            return old if o.startswith("post") else env[d]
+        if k == "un" and o == "!":
+            v = ev(fn, nd["c"][0], env, assume)
+            return None if v is None else int(not v)
+        if k == "bin" and o in ("&&", "||"):
+            a = ev(fn, nd["c"][0], env, assume)
+            if a is None and assume:
+                a = 1
+            if a is None:
+                return None
+            if (o == "&&" and not a) or (o == "||" and a):
+                return int(bool(a))
+            b = ev(fn, nd["c"][1], env, assume)
+            if b is None and assume:
+                b = 1
+            return None if b is None else int(bool(b))
+        if k == "bin" and o in ("==", "!=", "<", ">", "<=", ">="):
+            a, b = ev(fn, nd["c"][0], env, assume), ev(fn, nd["c"][1], env, assume)
+            if a is None or b is None:
+                return None
+            return int({"==": a == b, "!=": a != b, "<": a < b, ">": a > b, "<=": a <= b, ">=": a >= b}[o])
+        return None
+    for fn in prog.all_funcs():
+        if not fn.blocks:
+            continue
+        for b in fn.blocks.values():
+            if len(b.succs) != 2 or not b.elems or b.succs[0] is None or b.succs[0] < 0 or b.term not in ("DoStmt", "WhileStmt", "ForStmt"):
+                continue
+            T = b.elems[-1]
+            if not any(is_emfile_leaf(fn, x) for x in fn.subtree(T)):
+                continue
+            # is the true edge a back edge (can this block be reached again from it)?
+            seen, st = set(), [b.succs[0]]
+            while st:
+                x = st.pop()
+                if x in seen or x is None or x < 0:
+                    continue
+                seen.add(x)
+                st.extend(fn.blocks[x].succs)
+            if b.id not in seen:
+                continue
+            loop = {x for x in seen if x == b.id or _reaches(fn, x, b.id)}
+            stat.sites += 1
+            stat.obligations += 2
+            tnodes = set(fn.subtree(T))
+            env = {}
+            for i, nd in enumerate(fn.nodes):
+                if nd["k"] == "decl" and "d" in nd and nd.get("c") and fn.const_val(nd["c"][0]) is not None:
+                    env[nd["d"]] = fn.const_val(nd["c"][0])
+            for i, nd in enumerate(fn.nodes):      # a variable modified outside the condition is not a constant
+                tgt = None
+                if nd["k"] == "bin" and nd["o"].endswith("=") and nd["o"] not in ("==", "!=", "<=", ">="):
+                    tgt = fn.strip(nd["c"][0])
+                elif nd["k"] == "un" and nd.get("o") in ("post++", "post--", "pre++", "pre--", "&") and i not in tnodes:
+                    tgt = fn.strip(nd["c"][0])
+                if tgt is not None and fn.nodes[tgt]["k"] == "ref" and fn.nodes[tgt].get("d") in env:
+                    del env[fn.nodes[tgt]["d"]]
+            first = ev(fn, T, env, True)
+            if first == 0:
+                res.add(Finding("C16", "C16.g.retry-never-taken", fn.name, "loop condition", fn.where(T),
+                                "%s: with the open failing and errno == EMFILE, the first evaluation of the loop condition `%s` "
+                                "is false (its counter starts at its initialiser), so the collect-and-retry is never taken: "
+                                "descriptors held only by dropped, unclosed ports are not released when the process runs out of them"
+                                % (fn.name, fn.txt(T)[:90]), unit=fn.unit.display))
+            else:
+                stat.discharged += 1
+            # the retry collects: a sexp_gc call inside the loop whose guard holds under the counter left behind
+            ok, why = False, "no call of sexp_gc inside the retry loop"
+            for i, nd in enumerate(fn.nodes):
+                if nd["k"] != "call" or nd.get("o") != "sexp_gc":
+                    continue
+                g = [x for x in loop if i in fn.blocks[x].elems or any(i in fn.subtree(e) for e in fn.blocks[x].elems[-1:])]
+                if not g:
+                    continue
+                G = fn.blocks[g[0]]
+                bad = None
+                for q in G.preds:
+                    Q = fn.blocks[q]
+                    if len(Q.succs) == 2 and Q.elems and Q.succs[0] != Q.succs[1]:
+                        v = ev(fn, Q.elems[-1], dict(env), False)
+                        if v is not None and bool(v) != (Q.succs[0] == G.id):
+                            bad = Q.elems[-1]
+                if bad is None:
+                    ok = True
+                else:
+                    why = "the guard `%s` of the sexp_gc call is false on the retry" % fn.txt(bad)[:40]
+            if ok:
+                stat.discharged += 1
+                stat.sample({"function": fn.name, "condition": fn.txt(T)[:80], "first_evaluation": first, "where": fn.where(T)})
+            else:
+                res.add(Finding("C16", "C16.g.retry-without-collection", fn.name, "retry loop", fn.where(T),
+                                "%s retries the open on EMFILE, but %s: the retry finds the same descriptors in use"
+                                % (fn.name, why), unit=fn.unit.display))
+    return stat
+
+
+def _reaches(fn, a, b):
+    seen, st = set(), [a]
+    while st:
+        x = st.pop()
+        if x == b:
+            return True
+        if x in seen or x is None or x < 0:
+            continue
+        seen.add(x)
+        st.extend(fn.blocks[x].succs)
+    return False
